@@ -342,7 +342,7 @@ pub fn oracle(ctx: &Ctx, rng: &mut Rng, o: &mut Out) {
       let got = mv_json(&l.extract_meta_var(&l.pre_process_pattern(s)));
       // quantifier guard: the language's own expando letter is outside the `$`-alphabet of the
       // property, except `_` (explicitly in the alphabet) inside a spelling that starts with `$`
-      if s.contains(e) && !(e == '_' && s.starts_with('$')) {
+      if e != '$' && s.contains(e) && !(e == '_' && s.starts_with('$')) {
         continue;
       }
       let mut kind = spec.get(0).and_then(|k| k.as_str()).unwrap_or("none").to_string();
@@ -378,7 +378,7 @@ pub fn oracle(ctx: &Ctx, rng: &mut Rng, o: &mut Out) {
     // file and `--selector` on the command line) read a lone spelling the same, documented way
     let mut entry_cases = 0usize;
     for sp in ["$A", "$$A", "$_", "$$_", "$$$", "$$$A", "$A1", "$_X", "$$$_"] {
-      if sp.contains(e) && !(e == '_' && sp.starts_with('$')) {
+      if e != '$' && sp.contains(e) && !(e == '_' && sp.starts_with('$')) {
         continue;
       }
       let spec = spec_spelling(sp);
@@ -445,7 +445,7 @@ pub fn oracle(ctx: &Ctx, rng: &mut Rng, o: &mut Out) {
         .filter(|n| {
           n.is_named() && n.children().len() == 0 && n.range().len() > 0 && !n.text().contains('$') && n.parent().map_or(false, |p| {
             let t = p.text();
-            t.len() <= 100 && !t.contains('\n') && !t.contains('$') && !t.contains(e) && p.children().filter(|c| c.is_named()).count() >= 2 && !p.dfs().any(|d| d.is_error())
+            t.len() <= 100 && !t.contains('\n') && !t.contains('$') && (e == '$' || !t.contains(e)) && p.children().filter(|c| c.is_named()).count() >= 2 && !p.dfs().any(|d| d.is_error())
           })
         })
         .collect();
@@ -454,7 +454,7 @@ pub fn oracle(ctx: &Ctx, rng: &mut Rng, o: &mut Out) {
         let base = p.range().start;
         let pt = p.text().to_string();
         for sp in ["$A", "$$A", "$_", "$$_", "$$$", "$$$A", "$A1", "$$$_"] {
-          if sp.contains(e) && !(e == '_' && sp.starts_with('$')) {
+          if e != '$' && sp.contains(e) && !(e == '_' && sp.starts_with('$')) {
             continue;
           }
           let text = format!("{}{}{}", &pt[..n.range().start - base], sp, &pt[n.range().end - base..]);
